@@ -46,6 +46,14 @@ pub(crate) fn input_matches(mut input: Ref) -> io::Result<bool> {
 		Ref::Reader(r) => match_input_reader(r),
 	};
 	match result {
+		// When the input ends in the middle of a value, rmp reports a synthetic
+		// "unexpected end of file" error rather than one from the reader itself.
+		// That only means the input is not MessagePack.
+		Err(InvalidMarkerRead(err) | InvalidDataRead(err))
+			if err.kind() == io::ErrorKind::UnexpectedEof =>
+		{
+			Ok(false)
+		}
 		Err(InvalidMarkerRead(err) | InvalidDataRead(err)) => Err(err),
 		Err(_) => Ok(false),
 		Ok(()) => Ok(true),
